@@ -28,7 +28,7 @@ var rawFuncs = map[string]struct {
 	"s_base": {"s_base", SInt}, "s_off": {"s_off", SInt}, "s_len": {"s_len", SInt}, "s_cap": {"s_cap", SInt},
 	"arr2str": {"arr2str", SStr},
 	"rv_valid": {"rv_valid", SBool}, "rv_val": {"rv_val", SVal}, "rv_iface": {"rv_iface", SBool}, "mk_rv": {"mk_rv", "RV"},
-	"tmd": {"tmd", SStr},
+	"tmd": {"tmd", SStr}, "fsread": {"fsread", SStr},
 	"rvkind": {"rvkind", SInt}, "tconvertible": {"tconvertible", SBool},
 }
 
@@ -214,6 +214,16 @@ func (c *SpecCtx) call(e *ast.CallExpr) TT {
 				return TT{T: ge(x.T, c.st.alloc0), Ty: boolT}
 			}
 			c.failf("fresh() of sort %s", x.T.Sort)
+		case "intag":
+			// the context is a rendererContext created for a tag node (not for a block)
+			x := c.tr(e.Args[0])
+			rct := c.w().lookupType("render.rendererContext")
+			if rct == nil {
+				c.failf("render.rendererContext not found")
+			}
+			val := c.w().unbox(rct, x.T, c.ex.d)
+			node, _ := c.ex.loadPath(val, rct, []int{1})
+			return TT{T: and(eq(app(SInt, "typeof", x.T), intLit(int64(c.w().typeID(rct, c.ex.d)))), not(eq(node, intLit(0)))), Ty: boolT}
 		case "wsink":
 			// the writer that finally receives the bytes: a trimWriter forwards to its w
 			x := c.tr(e.Args[0])
@@ -278,6 +288,11 @@ func (c *SpecCtx) call(e *ast.CallExpr) TT {
 		case "visited":
 			// visited(k): key already produced by the (single) map iteration in scope
 			k := c.tr(e.Args[0])
+			if c.iterKey != "" {
+				if g, ok := c.st.ghosts[c.iterKey]; ok {
+					return TT{T: sel(g, k.T, SBool), Ty: boolT}
+				}
+			}
 			for name, g := range c.st.ghosts {
 				if strings.HasPrefix(name, "iter$") {
 					if ks, _, ok := arrayParts(g.Sort); ok && ks == k.T.Sort {
